@@ -126,7 +126,7 @@ def run_exhaustive(shard, ctx):
     part, nparts = shard["part"], shard["nparts"]
     kinds = [("F", ln) for ln in (1, 2, 3)] + [("G", ln) for ln in (1, 2, 3)]
     n = 0
-    for nrows in (1, 2, 3, 4):
+    for nrows in range(1, shard.get("max_rows", 4) + 1):
         for combo in itertools.product(kinds, repeat=nrows):
             n += 1
             if n % nparts != part:
@@ -143,7 +143,7 @@ def run_exhaustive(shard, ctx):
             for a in range(1, total + 3):
                 for b in range(a, total + 3):
                     _query(ia, "s", a, b)
-    ctx.note("exhaustive_subspace", "rows<=4 x lengths 1..3 x all 1<=a<=b<=L+2: enumerated completely")
+    ctx.note("exhaustive_subspace", f"rows<={shard.get('max_rows', 4)} x lengths 1..3 x all 1<=a<=b<=L+2: enumerated completely")
 
 
 def gen_random_rows(rng, maxrows=60):
@@ -219,7 +219,10 @@ def replay(case, ctx):
 
 
 def plan(tier, seed):
-    shards = [{"kind": "exhaustive", "part": p, "nparts": 6} for p in range(6)]
+    if tier == "quick":
+        shards = [{"kind": "exhaustive", "part": p, "nparts": 6} for p in range(6)]
+    else:
+        shards = [{"kind": "exhaustive", "part": p, "nparts": 16, "max_rows": 5} for p in range(16)]
     nrand, per = (6, 2500) if tier == "quick" else (16, 20000)
     shards += [{"kind": "random", "n": per, "queries": 30} for _ in range(nrand)]
     nin, per = (4, 2000) if tier == "quick" else (16, 12000)
@@ -229,7 +232,7 @@ def plan(tier, seed):
 
 def gates(c, tier):
     need = {
-        "exhaustive:scaffolds": 1554,
+        "exhaustive:scaffolds": 1554 if tier == "quick" else 9330,
         "class:only_trailing_gap": 1,
         "class:only_leading_gap": 1,
         "class:beyond_end": 1,
@@ -246,4 +249,4 @@ def gates(c, tier):
 
 
 def summarize(c, tier):
-    return {"exhaustive_subspace_complete": c.get("exhaustive:scaffolds", 0) == 1554}
+    return {"exhaustive_subspace_complete": c.get("exhaustive:scaffolds", 0) == (1554 if tier == "quick" else 9330)}
